@@ -185,11 +185,107 @@ Definition cshift (c : nat) (r : cres) : cres :=
 Lemma cshift_cshift a b r : cshift a (cshift b r) = cshift (a + b) r.
 Proof. destruct r; cbn [cshift]; rewrite ?Nat.add_assoc; reflexivity. Qed.
 
+(* ---- trailer fields behind the last-chunk ---- *)
+Lemma cshift_0 r : cshift 0 r = r.
+Proof. destruct r; reflexivity. Qed.
+
+Lemma trailers_pre : forall f body already rest pre,
+  trailers f body already rest pre = cshift pre (trailers f body already rest 0).
+Proof.
+  induction f as [|f IH]; intros body already rest pre; cbn [trailers].
+  - cbn [cshift]. f_equal. lia.
+  - destruct rest as [|a [|b r]]; try (cbn [cshift]; f_equal; lia).
+    destruct (ascii_eqb a c_cr && ascii_eqb b c_lf); [cbn [cshift]; f_equal; lia|].
+    destruct (find_eol (a :: b :: r)) as [i|]; [|cbn [cshift]; f_equal; lia].
+    rewrite (IH _ _ _ (pre + (i + 2))), (IH _ _ _ (0 + (i + 2))), cshift_cshift. f_equal.
+Qed.
+
+Lemma trailers_fuel : forall f f' body already rest pre,
+  length rest < f -> length rest < f' -> trailers f body already rest pre = trailers f' body already rest pre.
+Proof.
+  induction f as [|f IH]; intros f' body already rest pre H H'; [lia|]. destruct f' as [|f']; [lia|].
+  cbn [trailers]. destruct rest as [|a [|b r]]; try reflexivity.
+  destruct (ascii_eqb a c_cr && ascii_eqb b c_lf); [reflexivity|].
+  destruct (find_eol (a :: b :: r)) as [i|] eqn:E; [|reflexivity].
+  apply IH; rewrite skipn_length; cbn [length] in *; lia.
+Qed.
+
+Lemma trailers_consumed : forall f body already rest,
+  match trailers f body already rest 0 with
+  | CIncomplete b' ch' c => c <= length rest /\ b' = body /\ ch' = Some (0%N, already)
+  | CComplete _ _ => False
+  | CFinal c => 2 <= c <= length rest
+  | CThrow => False
+  end.
+Proof.
+  induction f as [|f IH]; intros body already rest; cbn [trailers].
+  - repeat split; lia.
+  - destruct rest as [|a [|b r]]; try (repeat split; cbn [length]; lia).
+    destruct (ascii_eqb a c_cr && ascii_eqb b c_lf); [cbn [length]; lia|].
+    destruct (find_eol (a :: b :: r)) as [i|] eqn:E; [|repeat split; lia].
+    destruct (find_eol_app _ [] _ E) as [_ Hi].
+    rewrite trailers_pre. specialize (IH body already (skipn (i + 2) (a :: b :: r))). rewrite skipn_length in IH.
+    destruct (trailers f body already (skipn (i + 2) (a :: b :: r)) 0); cbn [cshift]; try exact IH.
+    + destruct IH as [H1 [H2 H3]]. repeat split; try assumption. lia.
+    + lia.
+Qed.
+
+Lemma trailers_stable : forall f f' body already rest b,
+  length rest < f -> length (rest ++ b) < f' ->
+  match trailers f body already rest 0 with
+  | CIncomplete _ _ _ => True
+  | r => trailers f' body already (rest ++ b) 0 = r
+  end.
+Proof.
+  induction f as [|f IH]; intros f' body already rest b H H'; [lia|]. destruct f' as [|f']; [lia|].
+  cbn [trailers]. destruct rest as [|a [|c r]]; try exact I.
+  change ((a :: c :: r) ++ b) with (a :: c :: (r ++ b)). cbn iota.
+  destruct (ascii_eqb a c_cr && ascii_eqb c c_lf); [reflexivity|].
+  destruct (find_eol (a :: c :: r)) as [i|] eqn:E; [|exact I].
+  destruct (find_eol_app _ b _ E) as [Hf Hi]. change ((a :: c :: r) ++ b) with (a :: c :: (r ++ b)) in Hf. rewrite Hf.
+  change (a :: c :: (r ++ b)) with ((a :: c :: r) ++ b). rewrite skipn_app_le by lia.
+  rewrite (trailers_pre f), (trailers_pre f').
+  assert (L1 : length (skipn (i + 2) (a :: c :: r)) < f) by (rewrite skipn_length; cbn [length] in *; lia).
+  assert (L2 : length (skipn (i + 2) (a :: c :: r) ++ b) < f') by (rewrite app_length, skipn_length; rewrite app_length in H'; cbn [length] in *; lia).
+  pose proof (IH f' body already (skipn (i + 2) (a :: c :: r)) b L1 L2) as Hs.
+  destruct (trailers f body already (skipn (i + 2) (a :: c :: r)) 0); cbn [cshift]; try exact I; rewrite Hs; reflexivity.
+Qed.
+
+Lemma trailers_merge : forall f body already rest b body' ch' c,
+  length rest < f ->
+  trailers f body already rest 0 = CIncomplete body' ch' c ->
+  forall f' f'', length (rest ++ b) < f' -> length (skipn c rest ++ b) < f'' ->
+  trailers f' body already (rest ++ b) 0 = cshift c (trailers f'' body already (skipn c rest ++ b) 0).
+Proof.
+  induction f as [|f IH]; intros body already rest b body' ch' c Hf H f' f'' H' H''; [lia|].
+  cbn [trailers] in H.
+  assert (Zero : c = 0 -> trailers f' body already (rest ++ b) 0 = cshift c (trailers f'' body already (skipn c rest ++ b) 0)).
+  { intros ->. cbn [skipn] in *. rewrite cshift_0. apply trailers_fuel; assumption. }
+  destruct rest as [|a [|c0 r]]; try (inversion H; subst; apply Zero; reflexivity).
+  destruct (ascii_eqb a c_cr && ascii_eqb c0 c_lf) eqn:Ecr; [discriminate|].
+  destruct (find_eol (a :: c0 :: r)) as [i|] eqn:E; [|inversion H; subst; apply Zero; reflexivity].
+  destruct (find_eol_app _ b _ E) as [Hfe Hi].
+  rewrite trailers_pre in H.
+  destruct (trailers f body already (skipn (i + 2) (a :: c0 :: r)) 0) as [b1 ch1 c1| | |] eqn:Ein; cbn [cshift] in H; try discriminate.
+  inversion H; subst body' ch' c. clear H.
+  destruct f' as [|f']; [lia|]. cbn [trailers].
+  change ((a :: c0 :: r) ++ b) with (a :: c0 :: (r ++ b)). cbn iota. rewrite Ecr.
+  change ((a :: c0 :: r) ++ b) with (a :: c0 :: (r ++ b)) in Hfe. rewrite Hfe.
+  change (a :: c0 :: (r ++ b)) with ((a :: c0 :: r) ++ b). rewrite skipn_app_le by lia.
+  rewrite (trailers_pre f').
+  assert (L0 : length (skipn (i + 2) (a :: c0 :: r)) < f) by (rewrite skipn_length; cbn [length] in *; lia).
+  assert (L1 : length (skipn (i + 2) (a :: c0 :: r) ++ b) < f') by (rewrite app_length, skipn_length; rewrite app_length in H'; cbn [length] in *; lia).
+  assert (Hsk : skipn (i + 2 + c1) (a :: c0 :: r) = skipn c1 (skipn (i + 2) (a :: c0 :: r))) by apply skipn_add.
+  rewrite Hsk in H''.
+  rewrite (IH body already (skipn (i + 2) (a :: c0 :: r)) b b1 ch1 c1 L0 Ein f' f'' L1 H'').
+  rewrite cshift_cshift, Hsk. reflexivity.
+Qed.
+
 Lemma chunk_data_pre size already body rest pre :
   chunk_data size already body rest pre = cshift pre (chunk_data size already body rest 0).
 Proof.
   unfold chunk_data. destruct (size =? 0)%N.
-  - destruct (length rest <? 2); cbn [cshift]; f_equal; lia.
+  - apply trailers_pre.
   - destruct (_ <? _)%Z; cbn [cshift]; f_equal; lia.
 Qed.
 
@@ -204,11 +300,13 @@ Lemma chunk_data_merge size already body rest b body' ch' c :
 Proof.
   unfold chunk_data. intros H.
   destruct (size =? 0)%N eqn:Ez.
-  - destruct (Nat.ltb_spec (length rest) 2) as [Hl|Hl]; [|discriminate].
-    inversion H; subst. split; [lia|]. exists already. split; [reflexivity|]. split; [auto|].
-    split; [destruct (if length (skipn 0 rest ++ b) <? 2 then _ else _); auto|].
-    cbn [skipn].
-    destruct (length (rest ++ b) <? 2); reflexivity.
+  - apply N.eqb_eq in Ez. subst size.
+    pose proof (trailers_consumed (S (length rest)) body already rest) as Hc. rewrite H in Hc. destruct Hc as [Hc [-> ->]].
+    split; [exact Hc|]. exists already. split; [reflexivity|]. split; [auto|].
+    split.
+    + pose proof (trailers_consumed (S (length (skipn c rest ++ b))) body already (skipn c rest ++ b)) as Hc2.
+      destruct (trailers (S (length (skipn c rest ++ b))) body already (skipn c rest ++ b) 0); auto; contradiction.
+    + apply (trailers_merge (S (length rest)) body already rest b body (Some (0%N, already)) c); [lia|exact H|lia|lia].
   - set (avail := Z.of_nat (length rest)) in *.
     set (missing := (Z.of_N size - Z.of_N already)%Z) in *.
     destruct (Z.ltb_spec (avail - 2) missing) as [Hlt|Hge]; [|discriminate].
@@ -250,8 +348,7 @@ Lemma chunk_data_stable size already body rest b :
   end.
 Proof.
   unfold chunk_data. destruct (size =? 0)%N.
-  - destruct (Nat.ltb_spec (length rest) 2) as [Hl|Hl]; [exact I|].
-    rewrite app_length. destruct (Nat.ltb_spec (length rest + length b) 2); [lia|reflexivity].
+  - apply trailers_stable; lia.
   - destruct (Z.ltb_spec (Z.of_nat (length rest) - 2) (Z.of_N size - Z.of_N already)) as [Hl|Hl]; [exact I|].
     rewrite app_length.
     destruct (Z.ltb_spec (Z.of_nat (length rest + length b) - 2) (Z.of_N size - Z.of_N already)); [lia|].
@@ -268,7 +365,8 @@ Lemma chunk_data_consumed size already body rest :
   end.
 Proof.
   intros Hwf. unfold chunk_data. destruct (size =? 0)%N.
-  - destruct (Nat.ltb_spec (length rest) 2); lia.
+  - pose proof (trailers_consumed (S (length rest)) body already rest) as Hc.
+    destruct (trailers (S (length rest)) body already rest 0); try tauto; lia.
   - destruct (Z.ltb_spec (Z.of_nat (length rest) - 2) (Z.of_N size - Z.of_N already)); lia.
 Qed.
 
@@ -868,7 +966,9 @@ Lemma chunk_data_bounds size already body rest :
   end.
 Proof.
   intros Hwf. unfold chunk_data. destruct (size =? 0)%N.
-  - destruct (Nat.ltb_spec (length rest) 2); lia.
+  - pose proof (trailers_consumed (S (length rest)) body already rest) as Hc.
+    destruct (trailers (S (length rest)) body already rest 0) as [b1 ch1 c1|b1 c1|c1|]; try tauto; try lia.
+    destruct Hc as [Hc [-> _]]. lia.
   - destruct (Z.ltb_spec (Z.of_nat (length rest) - 2) (Z.of_N size - Z.of_N already));
       rewrite app_length, firstn_length; lia.
 Qed.
